@@ -74,20 +74,27 @@ def model_summary(model, limit=60):
     return out
 
 
-def _solver(base_axioms, ob, timeout_s, seed, mbqi):
+def _solver(base_axioms, ob, timeout_s, seed, mbqi, relevant_ext=False):
     if mbqi:
         s = z3.Solver()
     else:
         # SimpleSolver honours mbqi=false (the default tactic pipeline of Solver() ignores it)
         s = z3.SimpleSolver()
         s.set('mbqi', False)
+        if relevant_ext:
+            s.set('array.extensional', False)
     s.set('timeout', int(timeout_s * 1000))
     s.set('random_seed', seed)
     for ax in base_axioms:
         s.add(ax)
     for f in ob.pc:
         s.add(f)
-    s.add(z3.Not(ob.formula))
+    goal = z3.Not(ob.formula)
+    s.add(goal)
+    if relevant_ext and not mbqi:
+        from .values import ExtAxioms
+        for ax in ExtAxioms().axioms_for(list(base_axioms) + list(ob.pc) + [goal]):
+            s.add(ax)
     return s
 
 
@@ -102,7 +109,7 @@ def export_smt2(base_axioms, ob):
     return s.to_smt2()
 
 
-def discharge(ob, base_axioms, timeout_s=20, seed=0, both=False, keep_model=True):
+def discharge(ob, base_axioms, timeout_s=20, seed=0, both=False, keep_model=True, cvc5_first=False):
     """ob: state.Obligation -> Verdict.
 
     Stage 1: E-matching only (MBQI off).  unsat = proved.  `unknown (incomplete quantifiers)` means the
@@ -115,8 +122,24 @@ def discharge(ob, base_axioms, timeout_s=20, seed=0, both=False, keep_model=True
         return Verdict(ob.name, 'discharged', 'syntactic', 0.0, info=ob.info)
     info = dict(ob.info)
     zm = None
-    s1 = _solver(base_axioms, ob, timeout_s, seed, mbqi=False)
-    r1 = s1.check(z3.Bool('!go')) if False else s1.check()
+    if cvc5_first:
+        # word equations: cvc5's string solver decides what z3's seq solver leaves open for minutes
+        try:
+            cv, _why = run_cvc5(export_smt2(base_axioms, ob), min(timeout_s, 15))
+        except Exception:  # pragma: no cover
+            cv = 'unknown'
+        if cv == 'unsat':
+            return Verdict(ob.name, 'discharged', 'cvc5', time.time() - t0, info=info)
+    # stage 1a: E-matching with relevant extensionality only (see values.ExtAxioms); 1b: z3's full extensionality
+    s1 = _solver(base_axioms, ob, timeout_s, seed, mbqi=False, relevant_ext=True)
+    r1 = s1.check()
+    if os.environ.get('PYVC_DEBUG_STAGES'):
+        print(f'   1a {r1} {time.time() - t0:.2f}s {s1.reason_unknown() if r1 == z3.unknown else ""} {ob.name}', flush=True)
+    if r1 == z3.unknown and 'incomplete' in s1.reason_unknown():
+        # 1a saturated with a candidate counter-model: give z3's full extensionality a (short) chance to refute it
+        s1b = _solver(base_axioms, ob, min(timeout_s, 10), seed, mbqi=False)
+        if s1b.check() == z3.unsat:
+            s1, r1 = s1b, z3.unsat
     backend = 'z3'
     model = None
     reason = ''
